@@ -79,6 +79,12 @@ func Verif_C15_container() {
 		if e >= 1 {
 			verifAssert(calls2 > b2, "later-attached change listener runs on every update")
 		}
+		// a caller that polls Values() does not read after every notification: the list read
+		// after the LAST of several notifications must still reflect all of them
+		if e < nEvents-1 && !verifBool("readNow") {
+			verifReach("notification-not-read")
+			continue
+		}
 		got := sub.Values()
 		for j := range retained {
 			if retained[j] {
